@@ -259,6 +259,18 @@ func pickURL(rng *rand.Rand) string {
 	return urls[rng.Intn(len(urls))]
 }
 
+// tlsMark is what the TLSClient stub returns; countConn is the application's WrapConn wrapper.
+type tlsMark struct{ net.Conn }
+
+type countConn struct {
+	net.Conn
+	r, w    int
+	overTLS bool
+}
+
+func (c *countConn) Read(p []byte) (int, error)  { n, err := c.Conn.Read(p); c.r += n; return n, err }
+func (c *countConn) Write(p []byte) (int, error) { n, err := c.Conn.Write(p); c.w += n; return n, err }
+
 // exchange runs one Dialer.Upgrade against the scripted peer.
 func exchange(c *mon.C, cfg DCfg, ustr string, choice map[string]string, trailK int, delivery int, viaDial bool, keys map[string]bool, base ...*ws.Dialer) bool {
 	c.Count(1)
@@ -319,11 +331,41 @@ func exchange(c *mon.C, cfg DCfg, ustr string, choice map[string]string, trailK 
 			dialAddr = network + "|" + addr
 			return conn, nil
 		}
-		d.TLSClient = func(cn net.Conn, hostname string) net.Conn { tlsHost = hostname; return cn }
+		d.TLSClient = func(cn net.Conn, hostname string) net.Conn { tlsHost = hostname; return tlsMark{cn} }
+		// half of the dials: the application wraps the connection (Dialer.WrapConn: "called after successful dial and
+		// TLS initialization"): every byte of the handshake goes through the wrapper, and the wrapper is what it is
+		// handed back
+		var wrapped *countConn
+		wrapCalls := 0
+		if (trailK+delivery)%2 == 0 {
+			d.WrapConn = func(cn net.Conn) net.Conn {
+				wrapCalls++
+				wrapped = &countConn{Conn: cn}
+				_, wrapped.overTLS = cn.(tlsMark)
+				return wrapped
+			}
+		}
 		var nc net.Conn
 		nc, br, hs, err = d.Dial(context.Background(), ustr)
 		if nc != nil {
 			rc = nc
+		}
+		if d.WrapConn != nil {
+			det["wrapconn"] = fmt.Sprintf("calls=%d", wrapCalls)
+			switch {
+			case wrapCalls != 1:
+				c.Fail("dial/wrapconn-calls", fmt.Sprintf("WrapConn called %d times for one dial", wrapCalls), det)
+				return false
+			case wrapped.overTLS != (u.Scheme == "wss"):
+				c.Fail("dial/wrapconn-layer", fmt.Sprintf("WrapConn was handed the connection %s the TLS client (scheme %s)", map[bool]string{true: "above", false: "below / without"}[wrapped.overTLS], u.Scheme), det)
+				return false
+			case wrapped.w == 0 || (resp != nil && wrapped.r == 0):
+				c.Fail("dial/wrapconn-bypassed", fmt.Sprintf("handshake I/O did not go through the application's wrapper (%d bytes written, %d read through it)", wrapped.w, wrapped.r), det)
+				return false
+			case err == nil && nc != net.Conn(wrapped):
+				c.Fail("dial/wrapconn-returned", "Dial succeeded but the connection it returned is not the application's wrapper", det)
+				return false
+			}
 		}
 	} else {
 		br, hs, err = d.Upgrade(conn, u)
